@@ -22,8 +22,8 @@ import (
 func newBigFloat() *big.Float { return new(big.Float) }
 
 var (
-	strPool   = []string{"", "a", "b", "x y", "ünï", "zz", "0"}
-	keyPool   = []string{"k1", "k2", "k3", "key four"}
+	strPool   = []string{"", "a", "b", "x y", "ünï", "zz", "0", "q\"uo\\te\nline", "a"}
+	keyPool   = []string{"k1", "k2", "k3", "key four", "K1", "k.1/é"}
 	int32Pool = []int64{0, 1, -1, 42, math.MaxInt32, math.MinInt32}
 	int64Pool = []int64{0, 1, -1, 4242, math.MaxInt64, math.MinInt64}
 	u32Pool   = []uint64{0, 1, 77, math.MaxUint32}
@@ -158,7 +158,11 @@ func sizeDraw(t *rapid.T, depth int, label string) int {
 	if depth >= 2 {
 		hi = 1
 	}
-	return rapid.IntRange(-1, hi).Draw(t, label)
+	n := rapid.IntRange(-1, hi).Draw(t, label)
+	if n == hi && depth == 0 && coin(t, 1, 8, label+"/long") {
+		n = 9 // an occasional long top-level collection (capacity / length bookkeeping)
+	}
+	return n
 }
 
 // genField fills one struct field according to its entry.
@@ -180,6 +184,9 @@ func genField(t *rapid.T, e *spec.Entry, fv reflect.Value, depth int, label stri
 		if n < 0 {
 			fv.Set(reflect.Zero(fv.Type()))
 			return
+		}
+		if n > len(keyPool) {
+			n = len(keyPool)
 		}
 		m := reflect.MakeMapWithSize(fv.Type(), n)
 		start := rapid.IntRange(0, len(keyPool)-1).Draw(t, label+"/k0")
